@@ -140,7 +140,7 @@ Record watch := Watch {
   w_subj : subject;
   w_query : query;
   w_state : wstate;                  (* Subscription.state *)
-  w_freed : bool;                    (* the sync.Once around freeBuf has fired *)
+  w_freed : bool;                    (* freeBuf can no longer touch the maps: its sync.Once has fired, or a restore dropped its buffer *)
   w_snap : snapshot;                 (* the snapshot buffer the subscription started on *)
   w_pos : nat;                       (* Subscription.currentItem, as an offset into [vstream] *)
   w_events : list pev;               (* Watch.events *)
@@ -412,16 +412,26 @@ Definition watch_close (st : store) (n : nat) : store * out :=
   end.
 
 (* Restoration.Apply* + Commit: a fresh database (no metadata row: index 2 again) holding the
-   given rows, RefreshTopic = evict the cached snapshots and force-close every subscription.
-   The topic buffers and publishCh are NOT touched. *)
+   given rows, then RefreshTopic(eventTopic) = forceEvictByTopicLocked (drop the topic's cached
+   snapshots AND, since 2bf672d, its topic buffers) and force-close every subscription.
+   publishCh is NOT touched: the generation that makes publishBatch drop stale batches (949dae4) is
+   only advanced by RefreshAllTopics, which the resource store never calls, so in this model the
+   generation is constant and publishBatch = publishEvent.
+   A watch that existed before the restore keeps a pointer to its dropped buffer: its freeBuf only
+   decrements that orphan's counter (the map entries are removed only "if they still belong to this
+   buffer"), so it can no longer touch the maps - modelled by setting [w_freed].
+   Subscription.snapshotIndex (f559b0f: batches with 0 < index <= the end-of-snapshot index are
+   skipped inside Subscription.Next) is not a separate field: the snapshot batch carries the same
+   index, is read before the framing item and sets Watch.idx, whose own filter in nextEvent already
+   skips exactly those batches. *)
 Definition restore_table (l : list resource) : table := fold_left (fun t r => upsert r t) l [].
 
 Definition force_close (w : watch) : watch :=
   Watch (w_subj w) (w_query w) (match w_state w with WOpen => WForceClosed | x => x end)
-        (w_freed w) (w_snap w) (w_pos w) (w_events w) (w_idx w).
+        true (w_snap w) (w_pos w) (w_events w) (w_idx w).
 
 Definition restore (st : store) (l : list resource) : store * out :=
-  (Store (restore_table l) 2 (s_vsn st) (s_queue st) (s_bufs st) [] (map force_close (s_watches st)), OutOk).
+  (Store (restore_table l) 2 (s_vsn st) (s_queue st) [] [] (map force_close (s_watches st)), OutOk).
 
 Inductive op :=
 | OWrite (r : resource)                       (* Backend.WriteCAS; r_version r is the version presented *)
